@@ -99,3 +99,11 @@ type Exp2 struct {
 	Ks  []kind
 	Pad int
 }
+
+// CaseTwin has members that differ in letter case only, one of each pair hidden.
+type CaseTwin struct {
+	name string
+	Name string
+	Age  int
+	age  int
+}
